@@ -12,7 +12,7 @@ ANCHORS = ['mpilot/libraries/eems/fuzzy.py:FuzzyXOr.execute', 'mpilot/libraries/
 LEVEL = "exploration"
 RULE = ("every built-in data command x shapes of rank 1-3 incl. length-1 axes x common cell permutation x reshape to another rank; "
         "distinct by (command, n, source shape rank, target rank, has length-1 axis, dtypes, mask class)")
-REQUIRED_COUNTERS = ["shape_postconditions", "permutation_checks", "reshape_checks"]
+REQUIRED_COUNTERS = ["shape_postconditions", "permutation_checks", "reshape_checks", "layout_checks"]
 ASSUMPTIONS = ["z-score commands compared with 1e-9 tolerance (float summation order), all others bit-exact on the dyadic lattice",
                "commands raising the same specific error on both sides are not judged"]
 
@@ -103,6 +103,30 @@ def run_case(ctx, case):
             d = _same(cmd, expect, pout.value)
             if d:
                 ctx.fail("%s:cells-not-independent:permutation:%s" % (cmd, rk), {"diff": d, "params": params, "shape": list(shape)})
+    # memory layout: the same cells held Fortran-ordered / as a transposed view must give the same result
+    if len(shape) >= 2:
+        def relaid(a, how):
+            d = numpy.ma.getdata(a)
+            m = numpy.ma.getmaskarray(a)
+            if how == "F":
+                d2, m2 = numpy.asfortranarray(d), numpy.asfortranarray(m)
+            else:
+                d2 = numpy.ascontiguousarray(d.T).T
+                m2 = numpy.ascontiguousarray(m.T).T
+            return numpy.ma.array(d2, mask=m2) if a.mask is not numpy.ma.nomask else numpy.ma.array(d2)
+        how = "F" if sum(case["perm"][:3]) % 2 == 0 else "T-view"
+        lin = [relaid(a, how) for a in inputs]
+        lout, _ = arr.run_cmd(cmd, lin, params, fuzzy_inputs=fuzzy_in)
+        ctx.count("layout_checks")
+        if out.ok != lout.ok:
+            ctx.fail("%s:memory-layout-changes-outcome" % cmd, {"layout": how, "base": out.err, "relaid": lout.err and (lout.inner() or lout.err)})
+        elif out.ok:
+            if not isinstance(lout.value, numpy.ndarray) or tuple(lout.value.shape) != shape:
+                ctx.fail("%s:shape:%s" % (cmd, rk), {"got": list(getattr(lout.value, "shape", [])), "want": list(shape), "layout": how})
+            else:
+                dd = _same(cmd, out.value, lout.value)
+                if dd:
+                    ctx.fail("%s:cells-not-independent:memory-layout:%s" % (cmd, rk), {"diff": dd, "layout": how, "params": params, "shape": list(shape)})
     # reshape
     new = tuple(case["reshape"])
 
